@@ -22,11 +22,12 @@ Section Wif.
       let k := if compressed then key ++ [wif_compr_suffix] else key in
       Ok (check_encode alph radix cklen sha256 (net_ver ++ k)).
 
-  (* ord(net_ver): TypeError unless a single byte *)
+  (* ord(net_ver): TypeError unless a single byte (unreachable since Decode checks len(net_ver) first) *)
   Definition ord1 (b : list N) : res N := match b with [v] => Ok v | _ => Err TypeError end.
 
   (* WifDecoder.Decode -> (key bytes, compressed?) *)
   Definition wif_decode (s : list N) (net_ver : list N) : res (list N * bool) :=
+    if negb (length net_ver =? 1)%nat then Err ValueError else      (* "Invalid net version length" *)
     dec <- check_decode alph radix cklen sha256 s ;;
     if (length dec =? 0)%nat then Err ValueError else
     b0 <- of_option (nth_error dec 0) IndexError ;;
